@@ -7,6 +7,7 @@ Model of the bailiwick guards and filters of sdns (property C07).  Core Lean onl
   middleware/resolver/resolver.go  checkGlueRR, extractDelegationInfo, progressingReferral,
                                    validReferral, filterAuthorityRecords, clearAdditional
   middleware/cache/cache.go        filterCacheableAnswer
+  internal/dnsutil/rrset.go        NameInZone, escapedDot, FilterRRsToZone (as called by Resolver.answer)
 
 Names are presentation strings as the wire codec produces them (ASCII, miekg
 escapes `\.` and `\DDD`, fully qualified), held as `List Char`.  A name is
@@ -299,5 +300,42 @@ def keepCacheable (qname : Str) (r : AnsRR) : Bool :=
 /-- `filterCacheableAnswer(res).Answer` for the question name `qname`. -/
 def filterCacheable (qname : Str) (answer : List AnsRR) : List AnsRR :=
   answer.filter (keepCacheable qname)
+
+/-! ### `dnsutil.NameInZone`, `dnsutil.FilterRRsToZone` as used by `Resolver.answer` -/
+
+/-- How many backslashes end `p`: what the backward loop of
+`dnsutil.escapedDot(name, i)` counts for `p = name[:i]`. -/
+def trailingRun : Str → Nat
+  | [] => 0
+  | c :: t =>
+    if t.all (· == '\\') then (if c == '\\' then t.length + 1 else t.length) else trailingRun t
+
+/-- `dnsutil.NameInZone(name, zone)` on canonical (lower-case, fully
+qualified) names: the root contains everything; otherwise `name` is `zone`,
+or ends in `"." ++ zone` where that dot is a separator (an even number of
+backslashes precedes it). -/
+def nameInZone (name zone : Str) : Bool :=
+  if zone = ['.'] ∨ zone = [] then true
+  else if name = zone then true
+  else if name.length ≤ zone.length then false
+  else
+    let cut := name.length - zone.length
+    name.getD (cut - 1) ' ' == '.' && name.drop cut == zone &&
+      trailingRun (name.take (cut - 1)) % 2 == 0
+
+/-- `dnsutil.FilterRRsToZone(resp.Answer, zone)` in `Resolver.answer`: only
+answer records owned inside the zone whose servers were asked survive (names
+are compared in `dns.CanonicalName` form). The additional clause of the Go
+function — an NSEC whose next-domain lies outside the zone is dropped as
+well — only removes more and is not modelled. -/
+def filterToZone (zone : Str) (answer : List AnsRR) : List AnsRR :=
+  answer.filter fun r => nameInZone (lower r.owner) (lower zone)
+
+/-- The records of one upstream answer section that can reach the client's
+answer section: `Resolver.answer` filters them to the asked zone
+(`zone != ""` on every resolver path), `clearAdditional` touches only the
+other sections, and `Cache.additionalAnswer` only ever *appends* records it
+resolved itself through the target's own servers. -/
+def relayedFromUpstream (zone : Str) (answer : List AnsRR) : List AnsRR := filterToZone zone answer
 
 end SdnsVerif.Model.Bailiwick
